@@ -59,8 +59,8 @@ def _unary_oracle(args, obs):
 def c03_unary(k: int, t: T9, m: int, starts: int, finals: int) -> bool:
     """
     pre: pinned(k=k, m=m, starts=starts, finals=finals, t0=t[0], t1=t[1])
-    pre: 1 <= k <= 2 and 0 <= m <= 3 and 0 <= starts < 4 and 0 <= finals < 4
-    pre: all(0 <= t[3 * i] < 2 and 0 <= t[3 * i + 1] <= k and 0 <= t[3 * i + 2] < 2 for i in range(3))
+    pre: ((1 <= k) & (k <= 2)) & ((0 <= m) & (m <= 3)) & ((0 <= starts) & (starts < 4)) & ((0 <= finals) & (finals < 4))
+    pre: enc.sparse_ranges(t, 2, k)
     pre: sparse_canonical(t, m)
     post: _
     """
@@ -130,20 +130,20 @@ def _binary(cond, raw, ops, ta, ma, sa, fa, tb, mb, sb, fb, bsym, same):
 
 
 PRE_DOC = """
-    pre: 0 <= ma <= 2 and 0 <= mb <= 2 and 0 <= sa < 4 and 0 <= fa < 4 and 0 <= sb < 4 and 0 <= fb < 4
-    pre: all(0 <= ta[3 * i] < 2 and 0 <= ta[3 * i + 1] <= 1 and 0 <= ta[3 * i + 2] < 2 for i in range(2))
-    pre: all(0 <= tb[3 * i] < 2 and 0 <= tb[3 * i + 1] <= 1 and 0 <= tb[3 * i + 2] < 2 for i in range(2))
-    pre: sparse_canonical(ta, ma) and sparse_canonical(tb, mb) and 0 <= bsym < 2
+    pre: ((0 <= ma) & (ma <= 2)) & ((0 <= mb) & (mb <= 2)) & ((0 <= sa) & (sa < 4)) & ((0 <= fa) & (fa < 4)) & ((0 <= sb) & (sb < 4)) & ((0 <= fb) & (fb < 4))
+    pre: enc.sparse_ranges(ta, 2, 1)
+    pre: enc.sparse_ranges(tb, 2, 1)
+    pre: sparse_canonical(ta, ma) & sparse_canonical(tb, mb) & ((0 <= bsym) & (bsym < 2))
 """
 
 
 def c03_boolean(ta: T6, ma: int, sa: int, fa: int, tb: T6, mb: int, sb: int, fb: int, bsym: int) -> bool:
     """
     pre: pinned(ma=ma, mb=mb, sa=sa, fa=fa, sb=sb, fb=fb, bsym=bsym)
-    pre: 0 <= ma <= 2 and 0 <= mb <= 2 and 0 <= sa < 4 and 0 <= fa < 4 and 0 <= sb < 4 and 0 <= fb < 4
-    pre: all(0 <= ta[3 * i] < 2 and 0 <= ta[3 * i + 1] <= 1 and 0 <= ta[3 * i + 2] < 2 for i in range(2))
-    pre: all(0 <= tb[3 * i] < 2 and 0 <= tb[3 * i + 1] <= 1 and 0 <= tb[3 * i + 2] < 2 for i in range(2))
-    pre: sparse_canonical(ta, ma) and sparse_canonical(tb, mb) and 0 <= bsym < 2
+    pre: ((0 <= ma) & (ma <= 2)) & ((0 <= mb) & (mb <= 2)) & ((0 <= sa) & (sa < 4)) & ((0 <= fa) & (fa < 4)) & ((0 <= sb) & (sb < 4)) & ((0 <= fb) & (fb < 4))
+    pre: enc.sparse_ranges(ta, 2, 1)
+    pre: enc.sparse_ranges(tb, 2, 1)
+    pre: sparse_canonical(ta, ma) & sparse_canonical(tb, mb) & ((0 <= bsym) & (bsym < 2))
     post: _
     """
     raw = (ta, ma, sa, fa, tb, mb, sb, fb, bsym)
@@ -154,10 +154,10 @@ def c03_boolean(ta: T6, ma: int, sa: int, fa: int, tb: T6, mb: int, sb: int, fb:
 def c03_rational(ta: T6, ma: int, sa: int, fa: int, tb: T6, mb: int, sb: int, fb: int, bsym: int) -> bool:
     """
     pre: pinned(ma=ma, mb=mb, sa=sa, fa=fa, sb=sb, fb=fb, bsym=bsym)
-    pre: 0 <= ma <= 2 and 0 <= mb <= 2 and 0 <= sa < 4 and 0 <= fa < 4 and 0 <= sb < 4 and 0 <= fb < 4
-    pre: all(0 <= ta[3 * i] < 2 and 0 <= ta[3 * i + 1] <= 1 and 0 <= ta[3 * i + 2] < 2 for i in range(2))
-    pre: all(0 <= tb[3 * i] < 2 and 0 <= tb[3 * i + 1] <= 1 and 0 <= tb[3 * i + 2] < 2 for i in range(2))
-    pre: sparse_canonical(ta, ma) and sparse_canonical(tb, mb) and 0 <= bsym < 2
+    pre: ((0 <= ma) & (ma <= 2)) & ((0 <= mb) & (mb <= 2)) & ((0 <= sa) & (sa < 4)) & ((0 <= fa) & (fa < 4)) & ((0 <= sb) & (sb < 4)) & ((0 <= fb) & (fb < 4))
+    pre: enc.sparse_ranges(ta, 2, 1)
+    pre: enc.sparse_ranges(tb, 2, 1)
+    pre: sparse_canonical(ta, ma) & sparse_canonical(tb, mb) & ((0 <= bsym) & (bsym < 2))
     post: _
     """
     raw = (ta, ma, sa, fa, tb, mb, sb, fb, bsym)
@@ -167,8 +167,8 @@ def c03_rational(ta: T6, ma: int, sa: int, fa: int, tb: T6, mb: int, sb: int, fb
 def c03_self(ta: T9, ma: int, sa: int, fa: int) -> bool:
     """
     pre: pinned(ma=ma, sa=sa, fa=fa)
-    pre: 0 <= ma <= 3 and 0 <= sa < 4 and 0 <= fa < 4
-    pre: all(0 <= ta[3 * i] < 2 and 0 <= ta[3 * i + 1] <= 1 and 0 <= ta[3 * i + 2] < 2 for i in range(3))
+    pre: ((0 <= ma) & (ma <= 3)) & ((0 <= sa) & (sa < 4)) & ((0 <= fa) & (fa < 4))
+    pre: enc.sparse_ranges(ta, 2, 1)
     pre: sparse_canonical(ta, ma)
     post: _
     """
